@@ -1231,7 +1231,19 @@ where
             #[cfg(feature = "tracing")]
             tracing::debug!(member_id = tracing::field::debug(&member_id), "Probe start");
 
-            self.send_message(member_id.clone(), Message::Ping(probe_number), &mut runtime)?;
+            if let Err(err) =
+                self.send_message(member_id.clone(), Message::Ping(probe_number), &mut runtime)
+            {
+                // This round is lost, but the probe cycle must go on:
+                // returning without scheduling the next round would
+                // silently stop probing forever
+                self.probe.clear();
+                runtime.submit_after(
+                    Timer::ProbeRandomMember(self.timer_token),
+                    self.config.probe_period,
+                );
+                return Err(err);
+            }
 
             runtime.submit_after(
                 Timer::SendIndirectProbe {
